@@ -335,6 +335,15 @@ func (e *c18Env) proof(blockheight, sufheight base.Height, previous base.State, 
 		panic(err)
 	}
 
+	// the block map commits to the states tree the proof comes from (SuffrageProof.Prove compares the roots)
+	manifest := blockMap.Manifest().(base.DummyManifest) //nolint:forcetypeassert //...
+	manifest.SetStatesTree(tr.Root())
+	blockMap.SetManifest(manifest)
+
+	if err := blockMap.Sign(t.Local.Address(), t.Local.Privatekey(), t.LocalParams.NetworkID()); err != nil {
+		panic(err)
+	}
+
 	return isaacblock.NewSuffrageProof(blockMap, newstate, proof)
 }
 
